@@ -19,11 +19,13 @@ struct KFd {
 	// timer
 	bool armed = false; uint64_t deadline = 0; uint64_t expirations = 0; uint64_t armed_value = 0;
 	// file
-	size_t fpos = 0;
+	size_t fpos = 0; std::string path;
 	// epoll membership (single epoll instance is enough for cjet)
 	bool in_epoll = false; uint32_t ep_events = 0; uint64_t ep_data = 0; bool ep_pending = false; uint64_t ep_seq = 0;
 	int ep_owner = -1;
 };
+
+struct FileLogEntry { std::string op; bool exists = false, dur_exists = false; std::string image, dur_image; std::vector<std::string> torn; int change = 0; int call = 0; };
 
 struct ArenaBlock { size_t off, size; bool live; uint64_t seq; };
 
@@ -68,9 +70,11 @@ struct Kernel {
 	void (*sigterm_handler)(int) = nullptr;
 	void (*sigint_handler)(int) = nullptr;
 	// credential file (in-memory file system with one file)
-	bool file_exists = false; std::string file_path; std::string file_data;
-	std::vector<std::pair<std::string, std::string>> file_log; // (operation, image after it)
-	int fs_fault_at = -1; std::string fs_fault_kind; int fs_calls = 0; long fs_fault_arg = 0;
+	std::string file_path;                                   // the credential file
+	std::map<std::string, std::string> files, dur;           // what system calls see / what survives a loss of power
+	std::vector<FileLogEntry> file_log;                      // state of the credential file after every completed file-system call
+	int fs_fault_at = -1; std::string fs_fault_kind; int fs_calls = 0; long fs_fault_arg = 0; bool fs_fault_fired = false;
+	int cur_change = 0;                                      // number of password changes the reference model has seen so far
 	uint64_t urandom_state = 0x1234567;
 	// fault knobs
 	std::deque<int> timerfd_create_errs;   // errno per upcoming call (0 = ok)
